@@ -243,7 +243,7 @@ def judge(sysd, res, choices):
             bad(label, f"molecule {m}: residue {a} or {b} has no position")
             continue
         r = np.linalg.norm(O.min_image(pos[(m, a)] - pos[(m, b)], box))
-        if r < d - tol - 1e-9 or r > d + tol + avg + 1e-9:
+        if not (d - tol - 1e-9 <= r <= d + tol + avg + 1e-9):      # also true for nan
             bad(label, f"molecule {m}: residues {a},{b} end {r:.4f} nm apart, allowed [{d - tol:.4f}, {d + tol + avg:.4f}] (d={d} tol={tol} mean pair size={avg})",
                 ["cyclic-molecule"] if label == "cycle-closed" else [])
     return viols, rejections
